@@ -76,7 +76,7 @@ Definition fd_unlinked (p : path) (t : fdtab) : fdtab :=
 
 Record state := mkstate { st_fs : fsmap; st_fds : fdtab; st_umask : N }.
 
-Inductive errno := ENOENT | EBADF | ENOSPC | EIO | EACCES | EXDEV | EEXIST.
+Inductive errno := ENOENT | EBADF | ENOSPC | EIO | EACCES | EXDEV | EEXIST | ELOOP.
 
 (* ---------- operations = the mutating system calls ---------- *)
 
